@@ -270,6 +270,31 @@ func init() {
 					rep.Fail("C19.prng-seed", "two interleaved readers built with no seed data give different streams", "BuildSeededReader() x2")
 				}
 			}
+			// seed parts that are views into one caller-owned buffer (the first one with spare capacity, the
+			// others out of layout order): same stream as independent copies, and the buffer is left alone
+			if shard == 0 {
+				rep.Cases++
+				rec := []byte("0123456789abcdefghijklmnopqrst")
+				orig := append([]byte{}, rec...)
+				views := [][]byte{rec[0:5], rec[15:], rec[5:15]}
+				var copies [][]byte
+				for _, v := range views {
+					copies = append(copies, append([]byte{}, v...))
+				}
+				a, b := prng.BuildSeededRand(views...), prng.BuildSeededRand(copies...)
+				if a.Uint64() != b.Uint64() || a.Uint64() != b.Uint64() {
+					rep.Fail("C19.prng-seed", "seed parts that are sub-slices of one buffer give a different stream than equal independent slices", "views into one buffer")
+				}
+				if !bytes.Equal(rec, orig) {
+					rep.Fail("C19.prng-seed", "BuildSeededRand modified the caller's seed buffer", "views into one buffer")
+				}
+				r1, r2 := make([]byte, 16), make([]byte, 16)
+				io.ReadFull(prng.BuildSeededReader(views...), r1)
+				io.ReadFull(prng.BuildSeededReader(copies...), r2)
+				if !bytes.Equal(r1, r2) || !bytes.Equal(rec, orig) {
+					rep.Fail("C19.prng-seed", "BuildSeededReader: seed parts sharing a buffer give a different stream, or the buffer was modified", "views into one buffer")
+				}
+			}
 			idx := 0
 			for si, seed := range seeds {
 				ref := make([]byte, 64)
@@ -354,6 +379,32 @@ func init() {
 }
 
 func init() {
+	eng.Register(&eng.Scenario{
+		Name: "strings-concurrent", Props: []string{"C19"}, MustFinish: true, ObsNames: stdObs,
+		Doc:   "commonprefix.Prefix / TrimPrefix and padding.PadInPlace / UnpadInPlace called by three goroutines at once on unrelated arguments (pure functions: no shared state): each call returns what it returns sequentially",
+		Quick: eng.Bounds{PB: 2}, Thorough: eng.Bounds{PB: 3},
+		Body: func() {
+			args := [][]string{{"flower", "flow", "flight"}, {"/usr/lib", "/usr/share", "/usr/local/x"}, {"abc", "abd", "ab"}}
+			want := []string{"fl", "/usr/", "ab"}
+			for i := range args {
+				i := i
+				T("G", func() {
+					if p := commonprefix.Prefix(args[i]...); p != want[i] {
+						fail("C19.prefix", "Prefix(%v) = %q while other goroutines compute prefixes of other arguments, want %q", args[i], p, want[i])
+					}
+					in := append([]string{}, args[i]...)
+					commonprefix.TrimPrefix(in...)
+					msg := []byte(args[i][0])
+					padded := padding.PadInPlace(append([]byte{}, msg...))
+					out, err := padding.UnpadInPlace(padded)
+					if err != nil || string(out) != string(msg) {
+						fail("C19.roundtrip", "Unpad(Pad(%q)) = (%q,%v) under concurrency", msg, out, err)
+					}
+				})
+			}
+			vsched.Settle()
+		},
+	})
 	eng.Register(&eng.Scenario{
 		Name: "prng-concurrent", Props: []string{"C19"}, MustFinish: true, ObsNames: stdObs,
 		Doc:   "prng: three goroutines build sources / readers for different seed data at the same time (the functions share no documented state): each gets exactly the stream a sequential build of its seed gives",
